@@ -134,6 +134,26 @@ def security_update(chk, pid):
                     chk.ob("C01.R1", ok, fi.module, host, "value-formula:%s" % ("nan" if nan else "priced"),
                            "security value must be position x current price x multiplier", where=fi.where, expected=exp, found=short(leaf),
                            sample={"value": short(leaf), "guard": sym.fmt_guard(cg)[:160]})
+                # ---- C01.R1b / C02: where the price comes from
+                if pid in ("C01", "C02", "C04") and K == "SecurityBase":
+                    ps = ("fld", SELF, "_prices_set", 0)
+                    for prices_known in (True, False):
+                        sc = [(canon(ps), prices_known), (date_same, False)]
+                        if not prices_known:
+                            sc.append((("isnone", ("param", "data")), False))
+                        g2 = sym.sat(tuple(gg) + tuple(sc))
+                        if sym.inconsistent(g2):
+                            continue
+                        pf = sym.restrict(final_value(st, SELF, R.SPRICE), g2)
+                        if prices_known:
+                            okp = pf[0] == "sub" and pf[1][0] == "attr" and pf[1][2] == "values" and pf[1][1][0] == "fld" and pf[1][1][2] == R.SPRICES and is_inow(pf[2], guard=g2)
+                            exp_p = "%s.values[inow]" % R.SPRICES
+                        else:
+                            okp = canon(pf) == canon(("sub", ("param", "data"), fld(SELF, "name")))
+                            exp_p = "data[self.name]"
+                        chk.ob("C01.R1", okp, fi.module, host, "price-source:%s" % ("stored" if prices_known else "handed-in"),
+                               "on a new date the price is the security's own stored price series at the current row when it was given at setup (what the `prices` history reports), "
+                               "and the quote handed to update() only otherwise", where=fi.where, expected=exp_p, found=short(pf, 160))
                 # ---- C17.R1 / C01.R1c: notional value per class
                 if pid in ("C17", "C01"):
                     n_final = sym.restrict(final_value(st, SELF, R.NOTIONAL), gg)
@@ -605,8 +625,8 @@ def strategy_update(chk, pid):
     if pid in ("C16", "C08"):
         _bankruptcy(chk, pid, S, fi, host, R, the_val)
     # ---- C09 shadow stepping and publication
-    if pid in ("C09", "C19", "C08"):
-        _paper_rules(chk, pid, S, fi, host, R)
+    if pid in ("C09", "C19", "C08", "C10"):
+        _paper_rules(chk, "C19" if pid == "C10" else pid, S, fi, host, R)
     # ---- stale flag resolved
     if pid in ("C08",):
         w = [e for e in S.writes(R.STALE) if canon(e.value) == canon(sym.FALSE)]
@@ -1569,6 +1589,9 @@ def accessor_rules(chk, pid):
                         okg = any(mentions_field(a, R.NEEDUPDATE, SELF) for a, p in t.guard)
                         chk.ob("C08.R3", okd and okg, fi.module, host, "self-refresh-shape", "the self refresh is triggered by the needupdate flag or a lagging clock and runs at the tree's date",
                                where=t.where, found="%s | %s" % (short(a0) if a0 else "-", sym.fmt_guard(t.guard)))
+                        dep = [l for l in plain(t.guard) if mentions_field(l[0], R.STALE, fld(SELF, "root")) or (l[0][0] == "fld" and l[0][2] == R.STALE)]
+                        chk.ob("C08.R3", not dep, fi.module, host, "self-refresh-independent", "the two refreshes are independent: a root update skips idle securities, so a lagging security "
+                               "must bring itself up to date whether or not the tree was stale", where=t.where, expected="self refresh not conditioned on root.%s" % R.STALE, found=sym.fmt_guard(dep))
             # slicing
             if ret_series and pid in ("C08", "C04"):
                 attributed = pid == "C08" or (ret_series & input_series)
@@ -2013,10 +2036,10 @@ def ref(self, universe, **kwargs):
 def security_setup_rules(chk, pid):
     from .algo_equiv import check_equiv
 
-    if pid in ("C01", "C04", "C19", "C07"):
+    if pid in ("C01", "C04", "C19", "C07", "C02", "C18"):
         check_equiv(chk, "C01.R8", CORE, "SecurityBase", "setup", SEC_SETUP_REF, "security-setup",
                     "a security binds its own column of the universe as its price series (or an own empty column when the universe has none), its own history columns, and - when bid/offer "
                     "data is supplied - its own column of it, index-checked", limit=14)
-    if pid in ("C17", "C04"):
+    if pid in ("C17", "C04", "C07"):
         check_equiv(chk, "C17.R2", CORE, "CouponPayingSecurity", "setup", COUPON_SETUP_REF, "coupon-setup",
                     "a coupon-paying security binds its own coupon column (mandatory, index-checked) and optional long/short holding-cost columns", no_inline=("setup",), limit=14)
